@@ -371,7 +371,7 @@ PrimaryBase(g) ==        \* attribute / subscript / call on an operator expressi
   g.k \in {"attr", "sub", "call"} /\ (IsOperator(g.c[1]) \/ LexNode(g))
 \* (second disjuncts: what ConstantFolding may turn into the catalogued shape; such trees are Foldish, the model makes no
 \*  prediction for them, the tag only names the root cause)
-NegPow(g) == g.k = "bin" /\ g.v[1] = "**" /\ (FoldedNeg(g.c[1]) \/ (g.c[1].k \in {"un", "bin"} /\ Closed(g.c[1])))
+NegPow(g) == g.k = "bin" /\ g.v[1] = "**" /\ (FoldedNeg(g.c[1]) \/ (g.c[1].k \in {"un", "bin", "bool", "cond"} /\ Closed(g.c[1])))
 Tuple1(g) == g.k = "tuple" /\ Len(g.c) = 1
 Chain(g) == g.k = "cmp" /\ Len(g.v) > 1
 RECURSIVE DispLike(_)
